@@ -663,7 +663,9 @@ def nesting(_):
 # grammar-directed files
 
 WORDS = ["Hello", "world", "naïve", "日本語", "a", "I", "café", "1 > 0", "x;y", "50%", "it's", "\"q\"", "(ok)", "-", "e.g.",
-         "¿qué?", "Ж", "\U0001F600", "tab\there", "NOTE", "a:b", "100%,start"]
+         "¿qué?", "Ж", "\U0001F600", "tab\there", "NOTE", "a:b", "100%,start",
+         # ordinary characters of a WebVTT line that Python's str.split / strip / splitlines / \s treat as white space or line ends
+         "a\u00a0b", "x\u3000y", "p\u2028q", "n\u0085m", "v\x0bw", "e\x1cf", "k\u2003l", "f\x0cg"]
 CORE_REFS = ["&amp;", "&lt;", "&gt;", "&nbsp;", "&#65;", "&#x263A;", "&#x1F600;", "&#8230;", "&eacute;", "&copy;", "&amp;lt;", "&quot;"]
 NAMED_REFS = ["&lrm;", "&hellip;", "&mdash;", "&ndash;", "&rarr;", "&apos;", "&euro;"]
 PLAIN_CLASSES = ["loud", "first", "c1", "x-y"]
